@@ -64,3 +64,88 @@ Example C04_aligned_example :
   | _ => False
   end.
 Proof. vm_compute. repeat split; reflexivity. Qed.
+
+(* ---------------------------------------------------------------- a completed flush makes all prior input decodable *)
+(* Appended by the composition proof (proofs/Roundtrip_prefix.v, on top of the C01 composition proofs/Roundtrip_*.v).
+   Scripts are lists over any call type C with projections (operation, bytes offered, output capacity); g_run_calls,
+   g_input, g_ann are the run, the input (metadata payloads filtered out) and the consumed answers with the pending bits
+   each was invoked on (proofs/Roundtrip_defs.v).  Premises about the recorded answers as in C01: answer_ok3s, kept_ann
+   (booleans), faithful_ann (the heuristics hypothesis; on the quality 0/1 path for the answers repositioned at the
+   running sums of their blocks), meta_bytes_ok (metadata payloads are bytes).
+   [at_rest s'] is the boolean description of the encoder after a completed FLUSH or EMIT_METADATA call: initialised,
+   not finished, nothing pending (avail_out_ = 0), on a byte boundary (last_bytes_bits = 0 - C04_aligned) and, on the
+   main path, everything flushed (last_flush_pos = input_pos - C04_aligned).
+   Conclusion: the emitted bytes are whole bytes whose bits the decoder spec reads as  stream header, then n meta-block
+   steps that consume ALL remaining bits and end with Continue (a meta-block boundary: the decoder waits for more),
+   with exactly the input offered so far as output.  Padding and metadata blocks are skipped on the way. *)
+From Coq Require Import ZArith Bool.
+From V Require Import lib.PMap spec.PrefixCode spec.Decoder model.MetaBlockHeader proofs.Slicing_proofs
+  proofs.Roundtrip_defs proofs.Roundtrip_prefix proofs.Roundtrip_example proofs.Roundtrip_examplep.
+Import ListNotations.
+Open Scope N_scope.
+
+Theorem C04_flush_prefix_decodes : forall dict_word transform_tbl (C : Type) (c_op : C -> opk) (c_in : C -> list N) (c_cap : C -> N)
+    (params : list (N * N)) (cs : list C) (answers : list answer) s' emitted B,
+  let s0 := state0 params answers in
+  let s1 := ensure_initialized s0 in
+  let input := g_input C c_op c_in cs in
+  forallb answer_ok3s answers = true ->
+  meta_bytes_ok C c_op c_in cs = true -> lenN input < 2 ^ 64 ->
+  kept_ann (g_ann C c_op c_in c_cap s0 cs) = true ->
+  faithful_ann dict_word transform_tbl B (large_window s1) (stream_wbits s1) input 0
+               (if fastcond s1 then repos 0 (g_ann C c_op c_in c_cap s0 cs) else g_ann C c_op c_in c_cap s0 cs) ->
+  g_run_calls C c_op c_in c_cap s0 cs [] = Done (true, s', emitted) -> at_rest s' = true ->
+  exists rbits n sD,
+    read_wbits true (bytes_bits emitted) = Ok ((stream_wbits s1, large_window s1), rbits) /\ (n <= length rbits)%nat /\
+    loop_n (N.of_nat n) (meta_block dict_word transform_tbl (large_window s1) (2 ^ stream_wbits s1 - 16) B)
+           {| d_out := o_init []; d_ring := ring_init; d_info := PE; d_bits := rbits |} = Continue sD /\
+    d_bits sD = [] /\ rev' (o_rev (d_out sD)) = input.
+Proof. exact prefix_all_paths. Qed.
+Print Assumptions C04_flush_prefix_decodes.
+
+(* metadata is transparent: two scripts with the same non-metadata calls (they differ only in inserted EMIT_METADATA
+   calls), run on the same parameters and answers, both at rest: both prefixes decode, to the same bytes *)
+Theorem C04_metadata_transparent : forall dict_word transform_tbl (C : Type) (c_op : C -> opk) (c_in : C -> list N) (c_cap : C -> N)
+    (params : list (N * N)) (cs1 cs2 : list C) (answers : list answer) s1' e1 s2' e2 B,
+  let s0 := state0 params answers in
+  let s1 := ensure_initialized s0 in
+  filter (fun c => negb (opk_eqb (c_op c) OpMeta)) cs1 = filter (fun c => negb (opk_eqb (c_op c) OpMeta)) cs2 ->
+  forallb answer_ok3s answers = true -> lenN (g_input C c_op c_in cs1) < 2 ^ 64 ->
+  meta_bytes_ok C c_op c_in cs1 = true -> meta_bytes_ok C c_op c_in cs2 = true ->
+  kept_ann (g_ann C c_op c_in c_cap s0 cs1) = true -> kept_ann (g_ann C c_op c_in c_cap s0 cs2) = true ->
+  faithful_ann dict_word transform_tbl B (large_window s1) (stream_wbits s1) (g_input C c_op c_in cs1) 0
+               (if fastcond s1 then repos 0 (g_ann C c_op c_in c_cap s0 cs1) else g_ann C c_op c_in c_cap s0 cs1) ->
+  faithful_ann dict_word transform_tbl B (large_window s1) (stream_wbits s1) (g_input C c_op c_in cs2) 0
+               (if fastcond s1 then repos 0 (g_ann C c_op c_in c_cap s0 cs2) else g_ann C c_op c_in c_cap s0 cs2) ->
+  g_run_calls C c_op c_in c_cap s0 cs1 [] = Done (true, s1', e1) -> at_rest s1' = true ->
+  g_run_calls C c_op c_in c_cap s0 cs2 [] = Done (true, s2', e2) -> at_rest s2' = true ->
+  g_input C c_op c_in cs1 = g_input C c_op c_in cs2 /\
+  exists r1 n1 d1 r2 n2 d2,
+    read_wbits true (bytes_bits e1) = Ok ((stream_wbits s1, large_window s1), r1) /\
+    loop_n (N.of_nat n1) (meta_block dict_word transform_tbl (large_window s1) (2 ^ stream_wbits s1 - 16) B)
+           {| d_out := o_init []; d_ring := ring_init; d_info := PE; d_bits := r1 |} = Continue d1 /\ d_bits d1 = [] /\
+    read_wbits true (bytes_bits e2) = Ok ((stream_wbits s1, large_window s1), r2) /\
+    loop_n (N.of_nat n2) (meta_block dict_word transform_tbl (large_window s1) (2 ^ stream_wbits s1 - 16) B)
+           {| d_out := o_init []; d_ring := ring_init; d_info := PE; d_bits := r2 |} = Continue d2 /\ d_bits d2 = [] /\
+    rev' (o_rev (d_out d1)) = rev' (o_rev (d_out d2)) /\ rev' (o_rev (d_out d1)) = g_input C c_op c_in cs1.
+Proof. exact metadata_transparent. Qed.
+Print Assumptions C04_metadata_transparent.
+
+(* non-vacuity: default parameters, calls as triples (operation, bytes, capacity):
+   px_script = [FLUSH [104;105] cap 3; FLUSH [] cap 100; EMIT_METADATA [1;2;3] cap 100; FLUSH [33] cap 100] - two completed
+   flushes with a metadata block between them, two answers; px_emitted = 8B 00 80 68 69 96 00 01 02 03 00 00 08 21; every
+   premise holds, the encoder is at rest, and the prefix decodes to ex_input = [104;105;33] with no bits left *)
+Example C04_flush_prefix_decodes_example : forall dict_word transform_tbl,
+  let s0 := state0 [] px_answers in
+  let s1 := ensure_initialized s0 in
+  forallb answer_ok3s px_answers = true /\ meta_bytes_ok _ t_op t_in px_script = true /\ fastcond s1 = false
+  /\ kept_ann (g_ann _ t_op t_in t_cap s0 px_script) = true
+  /\ large_window s1 = false /\ stream_wbits s1 = 22 /\ g_input _ t_op t_in px_script = ex_input
+  /\ (forall B, faithful_ann dict_word transform_tbl B (large_window s1) (stream_wbits s1) ex_input 0 (g_ann _ t_op t_in t_cap s0 px_script))
+  /\ (exists s', g_run_calls _ t_op t_in t_cap s0 px_script [] = Done (true, s', px_emitted) /\ at_rest s' = true)
+  /\ forall B, exists rbits n sD,
+       read_wbits true (bytes_bits px_emitted) = Ok ((22, false), rbits) /\ (n <= length rbits)%nat /\
+       loop_n (N.of_nat n) (meta_block dict_word transform_tbl false (2 ^ 22 - 16) B)
+              {| d_out := o_init []; d_ring := ring_init; d_info := PE; d_bits := rbits |} = Continue sD /\
+       d_bits sD = [] /\ rev' (o_rev (d_out sD)) = ex_input.
+Proof. exact prefix_example. Qed.
